@@ -787,7 +787,8 @@ class EditFaults:
             "write of up to 4096 bytes, at bound 1)",
             "only the metafile path is judged; temporary siblings are not; "
             "one base has a symbolic link as the metafile path (judged on the "
-            "bytes reachable through the path)",
+            "bytes reachable through the path); three more have unusual file "
+            "metadata (owned by another uid, mode 0444, a second hard link)",
             "seam completeness: an audit hook must find every mutating OS "
             "event of a fault-free run accounted for by the shim (else exit 2)",
         ]
@@ -801,9 +802,12 @@ class EditFaults:
     def groups(self, tier, seed):
         gs = []
         for ver in ("v1", "v2", "hy"):
-            for opts in ("bare", "full", "bare-symlink", "big"):
-                if opts == "bare-symlink" and ver != "hy":
+            for opts in ("bare", "full", "bare-symlink", "bare-otheruid",
+                         "bare-readonly", "bare-hardlink", "big"):
+                if opts.startswith("bare-") and ver != "hy":
                     continue
+                if opts == "bare-otheruid" and os.geteuid() != 0:
+                    continue    # needs chown
                 if opts == "big" and ver != "v1":
                     continue
                 for name, _ in C17_REQUESTS:
@@ -820,7 +824,8 @@ class EditFaults:
                                        "tier": tier, "ks": "all", "bound": 1})
         return gs
 
-    def one_run(self, run, raw0, req_name, route, write_ks, symlink=False):
+    def one_run(self, run, raw0, req_name, route, write_ks, symlink=False,
+                variant=None):
         work = world.fresh_dir()
         path = os.path.join(work, "m.torrent")
         if symlink:
@@ -833,6 +838,13 @@ class EditFaults:
         else:
             with open(path, "wb") as f:
                 f.write(raw0)
+            # file metadata an implementation might branch on
+            if variant == "otheruid":
+                os.chown(path, 12345, 12345)
+            elif variant == "readonly":
+                os.chmod(path, 0o444)
+            elif variant == "hardlink":
+                os.link(path, os.path.join(work, "second-name.torrent"))
         args = {f: None for f in FIELDS}
         args.update(dict(C17_REQUESTS)[req_name])
         args = {k: (list(v) if isinstance(v, list) else v)
@@ -869,6 +881,7 @@ class EditFaults:
         seed = g["seed"]
         work = world.fresh_dir()
         symlink = g["base"][1].endswith("-symlink")
+        variant = g["base"][1].split("-")[1] if "-" in g["base"][1] else None
         raw0 = make_base((g["base"][0], g["base"][1].split("-")[0]), seed,
                          work)
         bound = g.get("bound", 1 if g["tier"] == "quick" else 2)
@@ -878,7 +891,8 @@ class EditFaults:
         unenc = g["req"].startswith("unenc")
         first = True
         for run, r in ex.explore(lambda run: self.one_run(
-                run, raw0, g["req"], g["route"], write_ks, symlink)):
+                run, raw0, g["req"], g["route"], write_ks, symlink,
+                variant)):
             res.transitions += 1
             res.evals += 1
             res.states += 1
@@ -946,14 +960,18 @@ class EditFaults:
         prefix = [(c, (p[0], p[1])) for c, p in case["vector"]]
         work = world.fresh_dir()
         symlink = case["base"][1].endswith("-symlink")
+        variant = case["base"][1].split("-")[1] if "-" in case["base"][1] \
+            else None
         raw0 = make_base((case["base"][0], case["base"][1].split("-")[0]),
                          case["seed"], work)
         ks = case.get("ks", "sample")
         run0 = e2.Run([])
-        r0 = self.one_run(run0, raw0, case["req"], case["route"], ks, symlink)
+        r0 = self.one_run(run0, raw0, case["req"], case["route"], ks, symlink,
+                          variant)
         new = r0["final"][1] if r0["final"][0] == "file" else None
         run = e2.Run(prefix)
-        r = self.one_run(run, raw0, case["req"], case["route"], ks, symlink)
+        r = self.one_run(run, raw0, case["req"], case["route"], ks, symlink,
+                         variant)
         kind, data = r["final"]
         if kind != "file":
             return [{"sig": "C17|metafile-" + kind, "detail": r["fault"]}]
